@@ -1,6 +1,7 @@
 package astisub
 
 import (
+	"bufio"
 	"context"
 	"errors"
 	"fmt"
@@ -335,7 +336,7 @@ type TeletextOptions struct {
 func ReadFromTeletext(r io.Reader, o TeletextOptions) (s *Subtitles, err error) {
 	// Init
 	s = &Subtitles{}
-	var dmx = astits.NewDemuxer(context.Background(), r)
+	var dmx = astits.NewDemuxer(context.Background(), newTeletextReader(r))
 
 	// Get the teletext PID
 	var pid uint16
@@ -403,6 +404,42 @@ func ReadFromTeletext(r io.Reader, o TeletextOptions) (s *Subtitles, err error) 
 		p.parse(s, cd, firstTime)
 	}
 	return
+}
+
+// teletextReader fills the buffers it is given as much as possible: the demuxer detects the packet size with one
+// single Read call, therefore without it the result depends on how the underlying reader delivers the bytes
+type teletextReader struct {
+	r io.Reader
+}
+
+// teletextReadSeeker is a teletextReader that can be rewinded
+type teletextReadSeeker struct {
+	teletextReader
+	s io.Seeker
+}
+
+func newTeletextReader(r io.Reader) io.Reader {
+	// The demuxer peeks into a *bufio.Reader instead of reading from it
+	if _, ok := r.(*bufio.Reader); ok {
+		return r
+	}
+	if s, ok := r.(io.Seeker); ok {
+		return &teletextReadSeeker{s: s, teletextReader: teletextReader{r: r}}
+	}
+	return &teletextReader{r: r}
+}
+
+// Read implements the io.Reader interface
+func (r *teletextReader) Read(p []byte) (n int, err error) {
+	if n, err = io.ReadFull(r.r, p); err == io.ErrUnexpectedEOF {
+		err = io.EOF
+	}
+	return
+}
+
+// Seek implements the io.Seeker interface
+func (r *teletextReadSeeker) Seek(offset int64, whence int) (int64, error) {
+	return r.s.Seek(offset, whence)
 }
 
 // TODO Add tests
